@@ -223,6 +223,15 @@ SPECIAL = [
     (None, "all(e > 0 for e in xs if e != y)", {"xs": [1, -1, 0], "y": 1}),
     (None, "all(a + b > 2 for a in xs for b in o.b)", {"xs": [1, 2], "ob": [0, 1]}),
     (None, "(w := x + 1) > 10 and w > 0", {}),
+    (None, "(GL := x * 2) > 1000 or abs(GL) > 100", {"x": 5}),
+    (None, "(cl := x + 1) > 1000 or max(cl, 0) > 100", {"x": 5}),
+    (None, "(w := x) > 100 or (w := y) > 100 or abs(w) > 50", {"x": 1, "y": 2}),
+    (None, "((w := x) + (w := y)) > 100 or [w, w][0] > 50", {"x": 1, "y": 2}),
+    (["x", "st"], "[st, x][1] > 100", {"x": 1, "st": "STRICTEQ"}),
+    (["x", "st"], "(st, x)[1] > 100", {"x": 1, "st": "STRICTEQ"}),
+    (["x", "st"], "len([x, st, x]) > 100 and (x, st) is None", {"x": 1, "st": "STRICTEQ"}),
+    (["x", "we"], "[we, x][1] > 100", {"x": 1, "we": "WEIRDEQ"}),
+    (["x", "we"], "len((x, we, [we])) > 100", {"x": 1, "we": "WEIRDEQ"}),
     (None, "f'{x:>{y}}' == 'zzz'", {"x": 1, "y": 3}),
     (None, "f'{s!r}-{x}' == 'zzz'", {}),
     (None, "{e for e in xs} == {99}", {"xs": [1, 2]}),
